@@ -2681,7 +2681,8 @@ namespace awkward {
             reinterpret_cast<std::complex<float>*>(ptr.get()),
             flatlength_so_far,
             reinterpret_cast<bool*>(contiguous_array.data()),
-            flatlength >> 1);
+            flatlength);
+          flatlength = flatlength * 2;
           break;
         case util::dtype::int8:
           err = kernel::NumpyArray_fill<int8_t, std::complex<float>>(
@@ -2689,7 +2690,8 @@ namespace awkward {
             reinterpret_cast<std::complex<float>*>(ptr.get()),
             flatlength_so_far,
             reinterpret_cast<int8_t*>(contiguous_array.data()),
-            flatlength >> 1);
+            flatlength);
+          flatlength = flatlength * 2;
           break;
         case util::dtype::int16:
           err = kernel::NumpyArray_fill<int16_t, std::complex<float>>(
@@ -2697,7 +2699,8 @@ namespace awkward {
             reinterpret_cast<std::complex<float>*>(ptr.get()),
             flatlength_so_far,
             reinterpret_cast<int16_t*>(contiguous_array.data()),
-            flatlength >> 1);
+            flatlength);
+          flatlength = flatlength * 2;
           break;
         case util::dtype::int32:
           err = kernel::NumpyArray_fill<int32_t, std::complex<float>>(
@@ -2705,7 +2708,8 @@ namespace awkward {
             reinterpret_cast<std::complex<float>*>(ptr.get()),
             flatlength_so_far,
             reinterpret_cast<int32_t*>(contiguous_array.data()),
-            flatlength >> 1);
+            flatlength);
+          flatlength = flatlength * 2;
           break;
         case util::dtype::int64:
           err = kernel::NumpyArray_fill<int64_t, std::complex<float>>(
@@ -2713,7 +2717,8 @@ namespace awkward {
             reinterpret_cast<std::complex<float>*>(ptr.get()),
             flatlength_so_far,
             reinterpret_cast<int64_t*>(contiguous_array.data()),
-            flatlength >> 1);
+            flatlength);
+          flatlength = flatlength * 2;
           break;
         case util::dtype::uint8:
           err = kernel::NumpyArray_fill<uint8_t, std::complex<float>>(
@@ -2721,7 +2726,8 @@ namespace awkward {
             reinterpret_cast<std::complex<float>*>(ptr.get()),
             flatlength_so_far,
             reinterpret_cast<uint8_t*>(contiguous_array.data()),
-            flatlength >> 1);
+            flatlength);
+          flatlength = flatlength * 2;
           break;
         case util::dtype::uint16:
           err = kernel::NumpyArray_fill<uint16_t, std::complex<float>>(
@@ -2729,7 +2735,8 @@ namespace awkward {
             reinterpret_cast<std::complex<float>*>(ptr.get()),
             flatlength_so_far,
             reinterpret_cast<uint16_t*>(contiguous_array.data()),
-            flatlength >> 1);
+            flatlength);
+          flatlength = flatlength * 2;
           break;
         case util::dtype::uint32:
           err = kernel::NumpyArray_fill<uint32_t, std::complex<float>>(
@@ -2737,7 +2744,8 @@ namespace awkward {
             reinterpret_cast<std::complex<float>*>(ptr.get()),
             flatlength_so_far,
             reinterpret_cast<uint32_t*>(contiguous_array.data()),
-            flatlength >> 1);
+            flatlength);
+          flatlength = flatlength * 2;
           break;
         case util::dtype::uint64:
           err = kernel::NumpyArray_fill<uint64_t, std::complex<float>>(
@@ -2745,7 +2753,8 @@ namespace awkward {
             reinterpret_cast<std::complex<float>*>(ptr.get()),
             flatlength_so_far,
             reinterpret_cast<uint64_t*>(contiguous_array.data()),
-            flatlength >> 1);
+            flatlength);
+          flatlength = flatlength * 2;
           break;
         case util::dtype::float16:
           throw std::runtime_error(
@@ -2758,7 +2767,8 @@ namespace awkward {
             reinterpret_cast<std::complex<float>*>(ptr.get()),
             flatlength_so_far,
             reinterpret_cast<float*>(contiguous_array.data()),
-            flatlength >> 1);
+            flatlength);
+          flatlength = flatlength * 2;
           break;
         case util::dtype::float64:
           err = kernel::NumpyArray_fill<double, std::complex<float>>(
@@ -2766,7 +2776,8 @@ namespace awkward {
             reinterpret_cast<std::complex<float>*>(ptr.get()),
             flatlength_so_far,
             reinterpret_cast<double*>(contiguous_array.data()),
-            flatlength >> 1);
+            flatlength);
+          flatlength = flatlength * 2;
           break;
         case util::dtype::complex64:
           err = kernel::NumpyArray_fill<std::complex<float>, std::complex<float>>(
@@ -2795,7 +2806,8 @@ namespace awkward {
             reinterpret_cast<std::complex<double>*>(ptr.get()),
             flatlength_so_far,
             reinterpret_cast<bool*>(contiguous_array.data()),
-            flatlength >> 1);
+            flatlength);
+          flatlength = flatlength * 2;
           break;
         case util::dtype::int8:
           err = kernel::NumpyArray_fill<int8_t, std::complex<double>>(
@@ -2803,7 +2815,8 @@ namespace awkward {
             reinterpret_cast<std::complex<double>*>(ptr.get()),
             flatlength_so_far,
             reinterpret_cast<int8_t*>(contiguous_array.data()),
-            flatlength >> 1);
+            flatlength);
+          flatlength = flatlength * 2;
           break;
         case util::dtype::int16:
           err = kernel::NumpyArray_fill<int16_t, std::complex<double>>(
@@ -2811,7 +2824,8 @@ namespace awkward {
             reinterpret_cast<std::complex<double>*>(ptr.get()),
             flatlength_so_far,
             reinterpret_cast<int16_t*>(contiguous_array.data()),
-            flatlength >> 1);
+            flatlength);
+          flatlength = flatlength * 2;
           break;
         case util::dtype::int32:
           err = kernel::NumpyArray_fill<int32_t, std::complex<double>>(
@@ -2819,7 +2833,8 @@ namespace awkward {
             reinterpret_cast<std::complex<double>*>(ptr.get()),
             flatlength_so_far,
             reinterpret_cast<int32_t*>(contiguous_array.data()),
-            flatlength >> 1);
+            flatlength);
+          flatlength = flatlength * 2;
           break;
         case util::dtype::int64:
           err = kernel::NumpyArray_fill<int64_t, std::complex<double>>(
@@ -2827,7 +2842,8 @@ namespace awkward {
             reinterpret_cast<std::complex<double>*>(ptr.get()),
             flatlength_so_far,
             reinterpret_cast<int64_t*>(contiguous_array.data()),
-            flatlength >> 1);
+            flatlength);
+          flatlength = flatlength * 2;
           break;
         case util::dtype::uint8:
           err = kernel::NumpyArray_fill<uint8_t, std::complex<double>>(
@@ -2835,7 +2851,8 @@ namespace awkward {
             reinterpret_cast<std::complex<double>*>(ptr.get()),
             flatlength_so_far,
             reinterpret_cast<uint8_t*>(contiguous_array.data()),
-            flatlength >> 1);
+            flatlength);
+          flatlength = flatlength * 2;
           break;
         case util::dtype::uint16:
           err = kernel::NumpyArray_fill<uint16_t, std::complex<double>>(
@@ -2843,7 +2860,8 @@ namespace awkward {
             reinterpret_cast<std::complex<double>*>(ptr.get()),
             flatlength_so_far,
             reinterpret_cast<uint16_t*>(contiguous_array.data()),
-            flatlength >> 1);
+            flatlength);
+          flatlength = flatlength * 2;
           break;
         case util::dtype::uint32:
           err = kernel::NumpyArray_fill<uint32_t, std::complex<double>>(
@@ -2851,7 +2869,8 @@ namespace awkward {
             reinterpret_cast<std::complex<double>*>(ptr.get()),
             flatlength_so_far,
             reinterpret_cast<uint32_t*>(contiguous_array.data()),
-            flatlength >> 1);
+            flatlength);
+          flatlength = flatlength * 2;
           break;
         case util::dtype::uint64:
           err = kernel::NumpyArray_fill<uint64_t, std::complex<double>>(
@@ -2859,7 +2878,8 @@ namespace awkward {
             reinterpret_cast<std::complex<double>*>(ptr.get()),
             flatlength_so_far,
             reinterpret_cast<uint64_t*>(contiguous_array.data()),
-            flatlength >> 1);
+            flatlength);
+          flatlength = flatlength * 2;
           break;
         case util::dtype::float16:
           throw std::runtime_error(
@@ -2872,7 +2892,8 @@ namespace awkward {
             reinterpret_cast<std::complex<double>*>(ptr.get()),
             flatlength_so_far,
             reinterpret_cast<float*>(contiguous_array.data()),
-            flatlength >> 1);
+            flatlength);
+          flatlength = flatlength * 2;
           break;
         case util::dtype::float64:
           err = kernel::NumpyArray_fill<double, std::complex<double>>(
@@ -2880,7 +2901,8 @@ namespace awkward {
             reinterpret_cast<std::complex<double>*>(ptr.get()),
             flatlength_so_far,
             reinterpret_cast<double*>(contiguous_array.data()),
-            flatlength >> 1);
+            flatlength);
+          flatlength = flatlength * 2;
           break;
         case util::dtype::complex64:
           err = kernel::NumpyArray_fill<std::complex<float>, std::complex<double>>(
